@@ -151,6 +151,10 @@ def run(repo, rep, tier):
         r, p, tier), ("BAD", "class-missing"), minimum=3)
     # tal:attributes entries are cut out of the statement value by the part
     # splitter and the entry pattern (C01 owns the statement patterns)
+    # what the tag dissection records as name and value (C03 owns it)
+    from . import c03 as _c03
+    L.borrow(repo, rep, "R07.1", "C03", _c03.parser_details,
+             ("slash-not-before-gt", "tag-space"))
     from . import c01 as _c01
     L.borrow(repo, rep, "R07.1", "C01", _c01.statement_patterns,
              ("statement-space", "statement-expression-width",
